@@ -6,6 +6,7 @@ From V.lib Require Import Base.
 From V.c09 Require Import C09Model C09Spec C09BaseProofs C09SttsProofs C09CttsProofs C09StscProofs C09TrakProofs C09TimeProofs C09CacheProofs.
 From V.c09 Require Import C09BuildModel C09BuildCttsProofs C09BuildStscProofs.
 From V.c09 Require Import C09ArithProofs C09PureModel C09PureProofs.
+From V.c09 Require Import C09TimeCodeModel C09TimeCodeProofs.
 
 (* a concrete non-trivial consistent table set: 7 samples, 3 stts runs, ctts, 2 stsc entries over 3 chunks,
    explicit sizes, stco, stss, sdtp *)
@@ -354,3 +355,40 @@ Print Assumptions C09_composite_answers.
 Theorem C09_queries_order_independent : forall qs s, run_all qs s = (map (fun q => eval q s) qs, s).
 Proof. exact run_all_pure. Qed.
 Print Assumptions C09_queries_order_independent.
+
+(* ================= SttsBox.GetTimeCode (C09TimeCodeModel.v / C09TimeCodeProofs.v) =================
+   "decode time of a sample" as a time.Duration in a given timescale: for ALL consistent tables, every sample number
+   and every non-zero uint32 timescale, floor(10^9 * decode time / timescale) nanoseconds whenever that is an int64
+   (the only values a time.Duration has).  Repaired text (/repo 423d4e5, finding C09-F7). *)
+Theorem C09_time_code : forall tb, consistent tb = true -> forall n ts, 1 <= n <= nsamples tb ->
+  0 < ts -> ts < 4294967296 ->
+  exists t, S_decode_time tb n = Some t /\
+            (1000000000 * t / ts < 9223372036854775808 ->
+             stts_get_time_code (t_stts_count tb) (t_stts_delta tb) n ts = Ok (S_time_code t ts)).
+Proof. exact time_code_correct. Qed.
+Print Assumptions C09_time_code.
+
+(* on the bare columns, with no more arithmetic hypotheses than C09_decode_time_exact (counts may sum past 2^32) *)
+Theorem C09_time_code_exact : forall cs ds, lenN cs = lenN ds -> forallb is_u32 ds = true ->
+  forall n ts, 1 <= n -> n <= sumN cs -> n < 4294967296 -> 0 < ts -> ts < 4294967296 ->
+  exists t, nthN (starts (expand_rl cs ds) 0) (n - 1) = Some t /\
+            (1000000000 * t / ts < 9223372036854775808 -> stts_get_time_code cs ds n ts = Ok (S_time_code t ts)).
+Proof. exact time_code_exact. Qed.
+Print Assumptions C09_time_code_exact.
+Example ex_time_code :
+  stts_get_time_code (t_stts_count ex_tb) (t_stts_delta ex_tb) 6 90000 = Ok 611111%Z /\
+  S_decode_time ex_tb 6 = Some 55 /\
+  stts_get_time_code [4294967295; 4294967295] [4294967295; 7] 4294967295 4294967295 = Ok 4294967294000000000%Z /\
+  stts_get_time_code [3] [5] 2 0 = Panic.
+Proof. vm_compute. repeat split. Qed.
+
+(* the pinned text (uint32 accumulator) is wrong from 2^32 units on: 500 samples of one second in a 10 MHz
+   timescale, sample 431 starts at 430 s and GetTimeCode said 503.2704 ms (reproduced on the real code) *)
+Theorem C09_time_code_pinned_refuted :
+  exists cs ds n ts t, lenN cs = lenN ds /\ forallb is_u32 cs = true /\ forallb is_u32 ds = true /\
+    1 <= n /\ n <= sumN cs /\ 0 < ts /\ ts < 4294967296 /\
+    nthN (starts (expand_rl cs ds) 0) (n - 1) = Some t /\ 1000000000 * t / ts < 9223372036854775808 /\
+    stts_get_time_code cs ds n ts = Ok (S_time_code t ts) /\
+    stts_get_time_code_pinned cs ds n ts <> Ok (S_time_code t ts).
+Proof. exact time_code_pinned_refuted. Qed.
+Print Assumptions C09_time_code_pinned_refuted.
